@@ -77,7 +77,7 @@ Proof.
   destruct (mu_idle (mw xw) t) eqn:MI; try exact HO.
   assert (t < length (xthr xw))%nat as Ht by (apply xget_inb; rewrite Hx; discriminate).
   unfold xget in Hx.
-  destruct o as [o'|m| | |[m|]]; xn Hx; rewrite ?nth_lupd_same by exact Ht; cbn [x_pc x_ops x_rets];
+  destruct o as [o'|m| | |[m|]|m]; xn Hx; rewrite ?nth_lupd_same by exact Ht; cbn [x_pc x_ops x_rets];
     (apply OInv_upd; [exact HO | exact HP | exact HI | exact Ht | auto | auto | | ]); cbn [x_pc wl3]; try discriminate.
   all: destruct (held (get (mw xw) t)) as [m'|]; [destruct (mode_eqb m m')|]; cbn [wl3]; discriminate.
 Qed.
@@ -247,6 +247,11 @@ Proof.
     + rewrite nth_lupd_same by exact Ht. cbn [x_ops x_rets]. rewrite Em.
       apply OInv_mu; auto; cbn [x_pc wl3]; discriminate.
     + rewrite Em. apply OInv_mu0; auto. rewrite Hx'. discriminate.
+  - (* XgStore *) assert (t < length (xthr xw))%nat as Ht by (apply HtN; discriminate). cbn [fst]. xn Hx.
+    oupd HO HP0 HI0 Ht; cbn [x_pc wl3]; try discriminate.
+    + intros p Fp. left. now apply fupd_false_true in Fp.
+    + intros p N Wp. cbn [waiting set_waiting] in Wp. now rewrite fupd_other in Wp.
+    + intros l' E. injection E as <-. reflexivity.
 Qed.
 End Outcome.
 
@@ -346,7 +351,7 @@ Proof.
   destruct HZ as (l & E & Wo & Nq).
   assert (t <> u) as N by (intros ->; rewrite Hx' in E; discriminate E).
   exists l. unfold xget in E.
-  destruct o as [o'|m| | |[m|]]; xn Hx; rewrite ?nth_lupd_other by exact N; auto.
+  destruct o as [o'|m| | |[m|]|m]; xn Hx; rewrite ?nth_lupd_other by exact N; auto.
 Qed.
 
 Ltac zupd Hu HZ Hx' := apply zero_upd; [exact Hu | exact HZ | cbn [cvq]; auto | rewrite Hx'; cbn [x_pc wl3]; intros l0 E0 W0 N0; try discriminate E0 ].
@@ -362,7 +367,7 @@ Proof.
       destruct HZ0 as (l0 & E1 & _). rewrite E0 in E1. discriminate E1.
     - revert E. unfold xbegin. cbv zeta. destruct (xget xw0 u) as [xp xo xr] eqn:Hx. cbn [x_pc x_ops x_rets].
       destruct xp; auto. destruct xo as [|o rest]; auto. destruct (mu_idle (mw xw0) u); auto.
-      destruct o as [o'|m| | |[m|]]; xnorm; rewrite ?nth_lupd_other by exact N; auto. }
+      destruct o as [o'|m| | |[m|]|m]; xnorm; rewrite ?nth_lupd_other by exact N; auto. }
   assert (x_zero (fst (xstep_thr xw0 u c)) t \/ x_returns_zero (xbegin xw0 u) (fst (xstep_thr xw0 u c)) t) as [Z | (l & E1 & E2 & E3)];
     [|left; exact Z | right; exists l; auto].
   clear HZ0 RB.
@@ -453,6 +458,7 @@ Proof.
     destruct (mu_pc_idle m' u); cbn [fst]; xn Hx.
     + rewrite nth_lupd_same by exact Hu. cbn [x_ops x_rets]. zupd Hu HZ Hx'.
     + left. destruct HZ as (l0 & E & Wo & Nq). exists l0. auto.
+  - (* XgStore *) assert (u < length (xthr xw))%nat as Hu by (apply HtN; discriminate). cbn [fst]. xn Hx. zupd Hu HZ Hx'.
 Qed.
 End ZeroStable.
 
